@@ -78,11 +78,16 @@ func DateTimeFromProto(proto *dtpb.DateTime) (DateTime, error) {
 	case dtpb.DateTime_YEAR:
 		l = dtYearLayout
 	}
+	// Without a time of day the value is a calendar date: keep the day the
+	// element shows in its own time zone, on the UTC midnight the parser uses;
+	// components below the element's precision are not part of the value.
 	switch l {
-	case dtDayLayout, dtMonthLayout, dtYearLayout:
-		// Without a time of day the value is a calendar date: keep the day the
-		// element shows in its own time zone, on the UTC midnight the parser uses.
+	case dtDayLayout:
 		t = time.Date(t.Year(), t.Month(), t.Day(), 0, 0, 0, 0, time.UTC)
+	case dtMonthLayout:
+		t = time.Date(t.Year(), t.Month(), 1, 0, 0, 0, 0, time.UTC)
+	case dtYearLayout:
+		t = time.Date(t.Year(), time.January, 1, 0, 0, 0, 0, time.UTC)
 	}
 	return DateTime{t, l}, nil
 }
